@@ -14,7 +14,8 @@ Init ==
      /\ Valid(start, stop, factor) /\ (Less(One, factor) => Small(start, stop, factor)) /\ jit = Zero /\ draw = Zero
   \/ /\ kind = "default" /\ start \in Starts /\ stop \in Stops /\ factor \in Factors \ {One} /\ count = 0
      /\ Valid(start, stop, factor) /\ Small(start, stop, factor) /\ jit = Zero /\ draw = Zero
-  \/ /\ kind = "jitter" /\ start \in {<<1, 2>>, <<1, 1>>, <<0, 1>>} /\ stop \in {<<8, 1>>, <<1, 1>>} /\ factor \in {<<2, 1>>} /\ count \in {4}
+  \/ /\ kind = "jitter" /\ start \in {<<1, 2>>, <<1, 1>>, <<0, 1>>} /\ stop \in {<<8, 1>>, <<1, 1>>, <<10, 1>>, <<3, 1>>}
+     /\ factor \in {<<2, 1>>} /\ count \in {4, 8}
      /\ Valid(start, stop, factor) /\ jit \in Jits /\ draw \in Draws
   \/ /\ kind = "invalid" /\ count \in {-1, 3}
      /\ \E p \in {<< <<-1, 1>>, One, <<2, 1>> >>, << One, One, <<1, 2>> >>, << One, Zero, <<2, 1>> >>, << Zero, Zero, <<2, 1>> >>,
@@ -35,6 +36,9 @@ Laws == CASE kind = "counted" -> LawSeq(start, stop, factor, count)
                                  /\ (DefaultLen > 1 => ~Eq(Vals(start, stop, factor, DefaultLen)[DefaultLen - 1], stop))
           [] kind = "jitter" -> \A i \in 1..count : LawJitter(Vals(start, stop, factor, count)[i], jit, draw)
           [] OTHER -> TRUE
+(* for jitter rows the un-jittered values and the other end of the interval go out too: the code is judged by the *)
+(* interval the property states (whatever the draws), not by one formula                                          *)
+Base == IF kind = "jitter" THEN Vals(start, stop, factor, count) ELSE <<>>
 Emit == PrintT(<<"T", ToJson([kind |-> kind, start |-> start, stop |-> stop, factor |-> factor, count |-> count, jit |-> jit,
-                             draw |-> draw, out |-> Out])>>)
+                             draw |-> draw, out |-> Out, base |-> Base, other |-> [i \in 1..Len(Base) |-> Sub(Base[i], Mul(Base[i], jit))]])>>)
 =============================================================================
